@@ -35,6 +35,12 @@ Theorem C13_sexp_reader_terminates : forall l, sexp_read l <> None.
 Proof. exact sexp_read_total. Qed.
 Print Assumptions C13_sexp_reader_terminates.
 
+(* nor is there one in the key-file reader above it: ImportKeys returns on every input *)
+From OTR Require Import Bytes.KeyFile Bytes.KeyFileProofs.
+Theorem C13_importKeys_terminates : forall l, importKeys l <> None.
+Proof. exact importKeys_total. Qed.
+Print Assumptions C13_importKeys_terminates.
+
 (* ---- the protocol logic, over every history ----
    In every state a conversation can reach, whatever was sent to it and whatever the user did, the key management never
    dereferences a key that is not there: looking up session keys, accepting a data message and building one never
